@@ -344,7 +344,10 @@ class CancelMonitor(Monitor):
     def processed(view):
         """the cancel request has been processed: the flag is durable, or the CancelWorkflow message carries its
         processed record (the two commit in this order, so either one means 'accepted')"""
-        return bool(view.wf.get("canceled")) or any(m["type"] == "CancelWorkflow" and m["processed"] for m in view.queue)
+        # (a cancel that reaches an already final workflow is not accepted: the handler records the message and does
+        # nothing, so the record alone counts only while the workflow is not final)
+        return bool(view.wf.get("canceled")) or (
+            view.wf["status"] not in COMPLETE and any(m["type"] == "CancelWorkflow" and m["processed"] for m in view.queue))
 
     def step(self, ex, tr, ms):
         v = []
